@@ -52,7 +52,8 @@ prop("C15", [_lazy("state", "rule_tls1"), _lazy("state", "rule_glob1"), _lazy("s
      "themselves are not explored")
 
 prop("C17", [_lazy("cli_fail", "rule_atom"), _lazy("cli_fail", "rule_exc1"), _lazy("cli_fail", "rule_exit1"),
-             _lazy("cli_fail", "rule_out1"), _lazy("cli_fail", "rule_load1"), _lazy("cli_fail", "rule_enc1")],
+             _lazy("cli_fail", "rule_out1"), _lazy("cli_fail", "rule_load1"), _lazy("cli_fail", "rule_lookup1"),
+             _lazy("cli_fail", "rule_enc1")],
      "Static decision of: every file-mutating call reachable from main is classified, and each write-capable one "
      "is a `with` block whose body only writes locals defined before the open, with no call that can fail "
      "reachable afterwards in that function or, after it returns, in its callers up to main (ATOM-1/2, CFG "
@@ -103,7 +104,8 @@ prop("C06", [_lazy("order", "rule_ord1"), _lazy("order", "rule_ndet1")],
      "decided up to the stated assumptions: sorted() keys are total on their elements; dict and OrderedSet keep "
      "insertion order; third-party calls are deterministic")
 
-prop("C13", [_lazy("dictkeys", "rule_rx1"), _lazy("dictkeys", "rule_dk")],
+prop("C13", [_lazy("dictkeys", "rule_rx1"), _lazy("dictkeys", "rule_dk"), _lazy("cli_flow", "rule_optflow_dictkeys"),
+             _lazy("infer", "rule_widen1")],
      "Static decision of: the text the CLI compiles from each --dict-keys-regex value is, in every variant the code "
      "can produce, ^ + group containing the unmodified user pattern + $ (regex parse tree with the user part as a "
      "hole), without flags (RX-1); the per-field flag is passed only by _convert as `key not in dict_keys_fields` "
@@ -142,7 +144,7 @@ prop("C16", [_lazy("cli_flow", "rule_optflow1"), _lazy("cli_flow", "rule_optflow
      "the relative order of -m and the deprecated -l samples (argparse separates them)")
 
 prop("C18", [_lazy("converters", "rule_tok1"), _lazy("converters", "rule_tok2"), _lazy("converters", "rule_tok3"),
-             _lazy("converters", "rule_null1"), _lazy("state", "rule_glob1_converters")],
+             _lazy("converters", "rule_null1"), _lazy("state", "rule_glob1_converters"), _lazy("emit", "rule_sib1")],
      "Static decision of: the path tokens and both separators emitted by the generator are the ones the post-init "
      "interpreter dispatches / splits on, and its type-argument index per container token matches the emitted "
      "annotation form (TOK-1); every IR class that rapid type analysis shows the inference pipeline can put in a "
@@ -152,7 +154,8 @@ prop("C18", [_lazy("converters", "rule_tok1"), _lazy("converters", "rule_tok2"),
      "shared between classes (GLOB-1).",
      "that converted values equal parsing the original strings; behaviour of the per-field attrs converter form")
 
-prop("C10", [_lazy("emit", "rule_lim"), _lazy("emit", "rule_inj3"), _lazy("emit", "rule_lit"), _lazy("state", "rule_glob1_generators")],
+prop("C10", [_lazy("emit", "rule_lim"), _lazy("emit", "rule_inj3"), _lazy("emit", "rule_lit"), _lazy("state", "rule_glob1_generators"),
+             _lazy("cli_flow", "rule_optflow_maxlit")],
      "Static decision of: every comparison of a literal count with MAX_LITERALS, of a member length with "
      "MAX_STRING_LENGTH and of the member count with the configured maximum flips exactly at the documented "
      "boundary (evaluated at limit-1, limit, limit+1 after normalisation) and compares the size of ONE collection; "
@@ -163,7 +166,7 @@ prop("C10", [_lazy("emit", "rule_lim"), _lazy("emit", "rule_inj3"), _lazy("emit"
      "'annotated whenever nothing was generalised' and that the listed strings are precisely the observed ones "
      "(values at run time)")
 
-prop("C11", [_lazy("emit", "rule_inj2"), _lazy("emit", "rule_sib2"), _lazy("emit", "rule_label1"),
+prop("C11", [_lazy("emit", "rule_inj2"), _lazy("emit", "rule_inj5"), _lazy("emit", "rule_sib2"), _lazy("emit", "rule_label1"),
              _lazy("imports", "rule_shadow1"), _lazy("emit", "rule_dup1"), _lazy("state", "rule_cache2")],
      "Static decision of: every use of the original key in the field_data family is a comparison, a label "
      "conversion, a container display (rendered by repr) or an exact escaper in code context (INJ-2); on every "
@@ -177,7 +180,8 @@ prop("C11", [_lazy("emit", "rule_inj2"), _lazy("emit", "rule_sib2"), _lazy("emit
 
 prop("C03", [_lazy("imports", "rule_imp1"), _lazy("imports", "rule_imp2"), _lazy("imports", "rule_shadow1"),
              _lazy("emit", "rule_label1"), _lazy("emit", "rule_dup1"), _lazy("emit", "rule_fwd1"),
-             _lazy("emit", "rule_inj2"), _lazy("emit", "rule_inj3"), _lazy("emit", "rule_sib1_layout")],
+             _lazy("emit", "rule_inj2"), _lazy("emit", "rule_inj3"), _lazy("emit", "rule_inj5"), _lazy("emit", "rule_sib1_layout"),
+             _lazy("layout", "rule_lay1"), _lazy("layout", "rule_lay2")],
      "Static decision of: every import tuple a generator can emit (symbolic components expanded over the class "
      "tables) names an existing module and a name bound at its top level, read from the installed sources "
      "(IMP-1); every identifier in an emitted code fragment (templates, default/factory/converter strings, bases) "
